@@ -713,6 +713,16 @@ func ruleP3(c *Ctx) {
 								}
 								if strings.Contains(name, "FindMinOutputSize") || strings.Contains(name, "FindEncoding") || strings.Contains(name, "GetPrefixSize") {
 									probs = append(probs, "passed to "+shortCallee(cc)+" before WithBitMode")
+								} else if callee := cc.StaticCallee(); callee != nil && callee.Pkg != nil && strings.HasPrefix(callee.Pkg.Pkg.Path(), modPath) {
+									// a helper of gosk that asks the object a mode-dependent question
+									for ai, aa := range cc.Args {
+										if aa != x || ai >= len(callee.Params) {
+											continue
+										}
+										if q := paramModeQuery(callee.Params[ai]); q != "" {
+											probs = append(probs, "passed to "+shortName(callee)+", which calls "+q+"() on it, before WithBitMode")
+										}
+									}
 								}
 							}
 						}
@@ -911,3 +921,24 @@ func ruleF7(c *Ctx) {
 }
 
 var _ = sort.Strings
+
+
+// paramModeQuery: the parameter is the receiver of a mode-dependent query (or of GetBitMode) in
+// the function that declares it.
+func paramModeQuery(prm *ssa.Parameter) string {
+	if prm.Referrers() == nil {
+		return ""
+	}
+	for _, r := range *prm.Referrers() {
+		if call, ok := r.(ssa.CallInstruction); ok {
+			cc := call.Common()
+			if cc.IsInvoke() && cc.Value == ssa.Value(prm) {
+				m := cc.Method.Name()
+				if modeDependentQueries[m] || m == "GetBitMode" {
+					return m
+				}
+			}
+		}
+	}
+	return ""
+}
